@@ -45,7 +45,7 @@ type DocOpts struct {
 var docDegreesSimple = []string{"1", "2", "3", "4", "5", "6", "7", "b2", "b3", "#4", "b5", "b6", "b7", "#1", "#5"}
 var docDegreesBig = []string{"8", "9", "b9", "#9", "10", "11", "#11", "12", "13", "b13", "14", "15", "bb7", "##4", "bb3", "bbb7", "##1", "bb6"}
 var DocDegreesHuge = []string{"0", "16", "64", "100", "255", "1000", "65536", "1000000", "4294967296", "18446744073709551615", "b18446744073709551615", "18446744073709551616", "-1", "#", "b", "1b", "x"}
-var docBases = []string{"1", "3", "5", "b3", "7", "b7", "2", "4", "6", "#4"}
+var docBases = []string{"1", "3", "5", "b3", "7", "b7", "2", "4", "6", "#4", "8", "10", "b10", "12", "15", "8", "10"}
 
 func genDocValue(r *Rand, o *DocOpts) string {
 	if r.Chance(2, 3) {
